@@ -13,15 +13,23 @@ TRUSTED = ["networkx DiGraph / topological_sort / predecessors / in_edges taken 
            "closed form of order_edges' numbering (targets from last to first in the topological order, sources ascending) "
            "read off the loop by hand"]
 ASSUMPTIONS = ["input is a networkx.DiGraph that is acyclic", "int labels (label families: C15)"]
-TECHNIQUE = "Coq proof (structure unbounded; essential-graph clause by kernel computation over all DAGs n<=4 x all topological orders) + extracted-model correspondence"
-LEVEL_TEXT = ("cpdag_structure (unbounded): for every DAG and every topological order the model terminates within its fuel, returns "
-              "exactly the DAG's nodes, directed+undirected edges partition the DAG's edge set (same skeleton), directed edges keep "
-              "the DAG's orientation. cpdag_essential_bounded_4 (kernel computation): for all 543 labelled DAGs on 4 nodes (and all on "
-              "fewer) and EVERY topological order, directed edges = edges present in every Markov-equivalent DAG (brute-force oracle "
-              "essential_dec over all orientations of the skeleton). Beyond n=4 the essential-graph clause is observed by "
-              "correspondence (oracle up to |E|<=12) only.")
-LEVEL_NOTE = ("Chickering's correctness proof is not formalised; the unbounded statement is kept in C04/Spec.v. The implementation is "
-              "tied to the model by differential correspondence at networkx's actual topological order.")
+TECHNIQUE = ("Coq proof (termination + structure unbounded; essential-graph clause by kernel computation over all DAGs n<=4 x all "
+             "topological orders; oracle reflection and 'equal essential graphs iff Markov equivalent' unbounded) + extracted-model correspondence")
+LEVEL_TEXT = ("Unbounded theorems: cpdag_total (the labelling loop never exhausts its fuel, any graph, any node order); cpdag_structure "
+              "(for every DAG and every topological order the result has exactly the DAG's nodes, directed and undirected edges are "
+              "disjoint subsets of the DAG's edges covering all of them, i.e. same skeleton, directed edges keep the DAG's orientation); "
+              "essential_oracle_correct (the brute-force oracle over all orientations of the skeleton decides 'a->b is in every "
+              "Markov-equivalent DAG'); essential_classifies (equal essential graphs iff Markov equivalent, about the spec). "
+              "Bounded: cpdag_essential_bounded_4 (kernel computation): for all 543 labelled DAGs on 4 nodes (and all on fewer; "
+              "enumeration proved complete, dags_enumeration_complete) and EVERY topological order, directed edges = essential edges. "
+              "Beyond n=4 the clause 'directed iff essential' is observed by correspondence only (model = oracle = implementation on "
+              "every generated case with |E|<=12, incl. all 29281 five-node DAGs in the thorough tier).")
+LEVEL_NOTE = ("Chickering's correctness proof (paper-length induction over the edge order) is not formalised; the full statement is "
+              "kept as cpdag_essential_stmt in C04/Spec.v. n=5 by kernel computation was estimated at hours of CPU and left out. "
+              "The bounded theorem is stated for the canonical edge list of each DAG on nodes 0..n-1. order_edges is modelled by its "
+              "closed form (targets from last to first in the topological order, sources ascending), label_edges loop by loop with fuel. "
+              "acyclic is stated as existence of a topological numbering. The implementation is tied to the model at networkx's actual "
+              "topological order of the very DiGraph it receives.")
 
 
 def _maybe_orders(g, tag):
